@@ -230,6 +230,18 @@ fn gen_profile(profile: &str, seed: u64, n: usize, thorough: bool, out: &mut Out
                 writeln!(out.expect, "-").unwrap();
                 out.n += 1;
             }
+            // attempt counts beyond 32 bits (legal: the clause holds a usize): the first pass still ends
+            // the loop after that many executions, however large N is
+            for big in ["4294967296", "4294967297", "8589934593", "18446744073709551615", "65537", "256", "257"] {
+                for pass_at in 0..3usize {
+                    for kind in 0..7 {
+                        let mut c = gen::gen_c09(pass_at + 1, 1u32 << pass_at, kind, "0s", &mut r);
+                        c.text = c.text.replace(&format!(" retry {} backoff", pass_at + 1), &format!(" retry {} backoff", big));
+                        c.tag = format!("c09 big n={} pass_at={} kind={}", big, pass_at, kind);
+                        out.script(&c);
+                    }
+                }
+            }
             // random larger N
             for _ in 0..n {
                 let nn = r.range(7, 24);
